@@ -14,6 +14,10 @@ Functions under contract (real code, re-read every run):
   data_processors.py :: DataOperation._notify_context_update
   payload_processors.py :: _PayloadProcessor.process  (entry normalisation: None payload / None data / plain-dict context)
 Spec functions: Resolve (config > context > default), Logic_p (uninterpreted processor logic).
+Bounded tier (labelled bounded, never counted as proved): replay/c01_bounded.py runs generated pipelines (32 node configurations incl.
+slicers, a sweep, sources, a sink, context-writing operations, rename/delete/template) through the real Pipeline in ONE process and
+compares data, context, the log of leaf-processor invocations and the failing node with a reference interpreter of the documented
+semantics - the composition of the node contracts and whatever state the code keeps between runs.
 """
 from __future__ import annotations
 import sys, os
@@ -742,6 +746,9 @@ def main(tier="quick", seed=0):
     if faults:
         run.engine_fault = faults[0][-1500:]
     generic_refutations(run, spec, PROP, replay)
+    # bounded: whole pipelines through the real Pipeline against a reference interpreter of the documented semantics (composition of
+    # the node contracts, state kept between runs, generated slicer / sweep classes)
+    run_bounded(run, PROP, "c01_bounded.py", tier)
     return run.finish(spec, "proof", "per-function contracts; see DESIGN.md C01")
 
 
